@@ -3006,15 +3006,23 @@ static int32_t parseGeneralNames(psPool_t *pool, const unsigned char **buf,
                 psTraceCrypto("ASN parse error SAN otherName oid\n");
                 return -1;
             }
-            activeName->oid = psMalloc(pool, activeName->oidLen);
             if ((uint32) (extEnd - p) < activeName->oidLen)
             {
 
                 psTraceCrypto("ASN parse error SAN otherName oid\n");
                 return -1;
             }
+            activeName->oid = psMalloc(pool, activeName->oidLen);
+            if (activeName->oid == NULL && activeName->oidLen > 0)
+            {
+                psError("Memory allocation error: activeName->oid\n");
+                return PS_MEM_FAIL;
+            }
             /* Note activeName->oidLen could be zero here */
-            Memcpy(activeName->oid, p, activeName->oidLen);
+            if (activeName->oidLen > 0)
+            {
+                Memcpy(activeName->oid, p, activeName->oidLen);
+            }
             p += activeName->oidLen;
             /* value looks like
                 0xA0, <len>, <TYPE>, <dataLen>, <data>
